@@ -25,6 +25,7 @@ type HarnessCfg struct {
 	SkipGo    []string          `json:"skip_go"`
 	Covers    []string          `json:"covers"`
 	MapOrder  int               `json:"map_order"`
+	MapOrderFuncs []string      `json:"map_order_funcs"`
 	Verbose   bool              `json:"verbose"`
 	MaxViol   int               `json:"max_violations"`
 	Tolerate  []string          `json:"tolerate"`
@@ -244,12 +245,13 @@ func runHarness(prog *ssa.Program, fn *ssa.Function, cfg HarnessCfg, workers int
 				h.mu.Unlock()
 				sv.Close()
 			}()
+			wc := &workerCache{snaps: map[*ssa.Package]*pkgSnap{}}
 			for {
 				prefix, ok := h.pop()
 				if !ok {
 					return
 				}
-				it := h.runPath(sv, prefix)
+				it := h.runPath(sv, prefix, wc)
 				h.mu.Lock()
 				h.res.Paths++
 				for k, v := range it.funcs {
@@ -305,12 +307,12 @@ func findFunc(prog *ssa.Program, pkg *ssa.Package, name string) *ssa.Function {
 	return nil
 }
 
-func (h *HarnessRun) runPath(sv *Solver, prefix []decision) (it *Interp) {
+func (h *HarnessRun) runPath(sv *Solver, prefix []decision, wc *workerCache) (it *Interp) {
 	ts := NewTermStore()
 	sv.PathBegin(ts)
 	it = &Interp{prog: h.prog, h: h, ts: ts, solver: sv, prefix: prefix,
 		globals: map[*ssa.Global]*Cell{}, pkgInit: map[*ssa.Package]int{}, funcs: map[string]int{},
-		covers: map[string]bool{}, stubsUsed: map[string]bool{}, ghost: map[string]Value{}, bypass: map[string]int{}, digests: map[int][]*Term{},
+		covers: map[string]bool{}, stubsUsed: map[string]bool{}, ghost: map[string]Value{}, bypass: map[string]int{}, digests: map[int][]*Term{}, wc: wc, tmplMemo: map[any]any{}, instOf: map[any]any{},
 		mapOrder: h.cfg.MapOrder}
 	end := "done"
 	msg := ""
